@@ -70,7 +70,7 @@ func C19(e *Env) {
 	r.Rule("R09.1", "the self-configuration is split over seven files (meta only in the first): what the tool compiles from them is decided by Merge/mergeMeta/mergeService, field by field with the documented combinator (shared with C09); R19.1 merges the YAML with the checker's own documented merge, so a deviating module merge makes the regenerated file differ", 22)
 	r.Rule("R09.1c", "behaviour classes of the merge combinators (shared with C09)", 4)
 	r.Rule("R09.2", "the fold is *i = input.Merge(*i, decoded) (shared with C09)", 1)
-	r.Rule("R08.1", "no order-sensitive range over a map in module code (engine M, shared with C08): otherwise import aliases are numbered in map order and a regenerated file differs from run to run", 4)
+	r.Rule("R08.1", "no order-sensitive range over a map in module code (engine M, shared with C08): otherwise import aliases are numbered in map order and a regenerated file differs from run to run", 1)
 	for _, m := range MapRanges(e.P) {
 		if m.Sensitive {
 			r.Violate("R08.1", m.Key, "order-sensitive range over a map: "+m.Why, nil, m.Pos)
